@@ -673,3 +673,180 @@ def inline_compiled_regexes(tree) -> int:
 
     T().visit(tree)
     return cnt
+
+
+# --------------------------------------------------------------------------------------------------
+# match statements -> if/elif chains (the supported pattern subset; anything else is left alone and the
+# path enumerator answers "outside the analysed fragment")
+# --------------------------------------------------------------------------------------------------
+class _NoDesugar(Exception):
+    pass
+
+
+def _L(node, ref):
+    for x in ast.walk(node):
+        if not hasattr(x, "lineno") or x.lineno is None:
+            ast.copy_location(x, ref)
+    return ast.fix_missing_locations(node)
+
+
+def _pat(p, subj, binds):
+    """pattern -> test expression over the subject expression `subj` (an ast expr that can be copied); bindings appended to binds"""
+    cp = lambda e: copy.deepcopy(e)  # noqa: E731
+    if isinstance(p, ast.MatchValue):
+        return ast.Compare(left=cp(subj), ops=[ast.Eq()], comparators=[p.value])
+    if isinstance(p, ast.MatchSingleton):
+        return ast.Compare(left=cp(subj), ops=[ast.Is()], comparators=[ast.Constant(value=p.value)])
+    if isinstance(p, ast.MatchAs):
+        t = ast.Constant(value=True) if p.pattern is None else _pat(p.pattern, subj, binds)
+        if p.name is not None:
+            binds.append((p.name, cp(subj)))
+        return t
+    if isinstance(p, ast.MatchOr):
+        sub = []
+        for q in p.patterns:
+            b2 = []
+            sub.append(_pat(q, subj, b2))
+            if b2:
+                raise _NoDesugar("bindings inside an or-pattern")
+        return ast.BoolOp(op=ast.Or(), values=sub)
+    if isinstance(p, ast.MatchSequence):
+        stars = [i for i, q in enumerate(p.patterns) if isinstance(q, ast.MatchStar)]
+        if len(stars) > 1:
+            raise _NoDesugar("two star patterns")
+        n = len(p.patterns)
+        if isinstance(subj, ast.Tuple | ast.List) and not stars and len(subj.elts) == n:
+            tests = [_pat(q, e, binds) for q, e in zip(p.patterns, subj.elts)]
+        else:
+            ln = ast.Call(func=ast.Name(id="len", ctx=ast.Load()), args=[cp(subj)], keywords=[])
+            if stars:
+                tests = [ast.Compare(left=ln, ops=[ast.GtE()], comparators=[ast.Constant(value=n - 1)])]
+            else:
+                tests = [ast.Compare(left=ln, ops=[ast.Eq()], comparators=[ast.Constant(value=n)])]
+            for i, q in enumerate(p.patterns):
+                if isinstance(q, ast.MatchStar):
+                    if q.name is not None:
+                        lo = ast.Constant(value=i) if i else None
+                        hi = ast.Constant(value=-(n - 1 - i)) if n - 1 - i else None
+                        binds.append((q.name, ast.Call(func=ast.Name(id="list", ctx=ast.Load()), args=[ast.Subscript(value=cp(subj), slice=ast.Slice(lower=lo, upper=hi, step=None), ctx=ast.Load())], keywords=[])))
+                    continue
+                k = i if not stars or i < stars[0] else -(n - i)
+                el = ast.Subscript(value=cp(subj), slice=ast.Constant(value=k), ctx=ast.Load())
+                tests.append(_pat(q, el, binds))
+        tests = [t for t in tests if not (isinstance(t, ast.Constant) and t.value is True)]
+        if not tests:
+            return ast.Constant(value=True)
+        return tests[0] if len(tests) == 1 else ast.BoolOp(op=ast.And(), values=tests)
+    raise _NoDesugar(type(p).__name__)
+
+
+def _subst_names(e, mapping):
+    class T(ast.NodeTransformer):
+        def visit_Name(self, n):
+            if isinstance(n.ctx, ast.Load) and n.id in mapping:
+                return copy.deepcopy(mapping[n.id])
+            return n
+
+    return T().visit(copy.deepcopy(e))
+
+
+def desugar_match(tree) -> int:
+    cnt = 0
+    tmp = 0
+
+    def rewrite(m: ast.Match):
+        nonlocal tmp
+        pre = []
+        subj = m.subject
+        simple = isinstance(subj, ast.Name | ast.Attribute | ast.Constant) or (isinstance(subj, ast.Tuple | ast.List) and all(isinstance(e, ast.Name | ast.Attribute | ast.Constant | ast.Subscript) for e in subj.elts)) or (isinstance(subj, ast.Subscript) and isinstance(subj.value, ast.Name) and isinstance(subj.slice, ast.Constant))
+        if not simple:
+            tmp += 1
+            nm = f"match_subject__{tmp}"
+            pre.append(ast.Assign(targets=[ast.Name(id=nm, ctx=ast.Store())], value=subj))
+            subj = ast.Name(id=nm, ctx=ast.Load())
+        branches = []
+        for c in m.cases:
+            binds = []
+            test = _pat(c.pattern, subj, binds)
+            body = [ast.Assign(targets=[ast.Name(id=n, ctx=ast.Store())], value=v) for n, v in binds] + c.body
+            if c.guard is not None:
+                g = _subst_names(c.guard, dict(binds)) if binds else c.guard
+                test = g if (isinstance(test, ast.Constant) and test.value is True) else ast.BoolOp(op=ast.And(), values=[test, g])
+            branches.append((test, body))
+        node = None
+        for test, body in reversed(branches):
+            if isinstance(test, ast.Constant) and test.value is True:
+                node_body = body
+                node = ("else", node_body) if node is None else node  # unreachable later cases are dropped by Python too
+                if node[0] == "else" and node[1] is not node_body:
+                    node = ("else", node_body)
+                continue
+            iff = ast.If(test=test, body=body, orelse=[] if node is None else (node[1] if node[0] == "else" else [node[1]]))
+            node = ("if", iff)
+        if node is None:
+            return pre
+        out = node[1] if node[0] == "else" else [node[1]]
+        return [_L(x, m) for x in pre + out]
+
+    for parent in ast.walk(tree):
+        for fld in ("body", "orelse", "finalbody"):
+            blk = getattr(parent, fld, None)
+            if not isinstance(blk, list):
+                continue
+            i = 0
+            while i < len(blk):
+                if isinstance(blk[i], ast.Match):
+                    try:
+                        new = rewrite(blk[i])
+                    except _NoDesugar:
+                        i += 1
+                        continue
+                    blk[i:i + 1] = new
+                    cnt += 1
+                    continue  # re-visit (nested matches inside the new statements are reached by the outer walk)
+                i += 1
+    return cnt
+
+
+def normalise_map_calls(tree) -> int:
+    """map(attrgetter("a"), X) -> (x.a for x in X);  map(f, X) with a plain callable name -> (f(x) for x in X).
+    Module-level `NAME = attrgetter("a")` bound once is looked through.  (Lazy in both forms.)"""
+    getters = {}
+    stores = {}
+    for n in ast.walk(tree):
+        if isinstance(n, ast.Name) and isinstance(n.ctx, ast.Store):
+            stores[n.id] = stores.get(n.id, 0) + 1
+
+    def attr_of(e):
+        if isinstance(e, ast.Call) and (isinstance(e.func, ast.Name) and e.func.id == "attrgetter" or isinstance(e.func, ast.Attribute) and e.func.attr == "attrgetter") and len(e.args) == 1 and isinstance(e.args[0], ast.Constant) and isinstance(e.args[0].value, str) and e.args[0].value.isidentifier():
+            return e.args[0].value
+        return None
+
+    for n in ast.walk(tree):
+        if isinstance(n, ast.Assign) and len(n.targets) == 1 and isinstance(n.targets[0], ast.Name) and stores.get(n.targets[0].id) == 1 and attr_of(n.value):
+            getters[n.targets[0].id] = attr_of(n.value)
+    cnt = 0
+    k = 0
+
+    class T(ast.NodeTransformer):
+        def visit_Call(self, c):
+            nonlocal cnt, k
+            self.generic_visit(c)
+            if isinstance(c.func, ast.Name) and c.func.id == "map" and len(c.args) == 2 and not c.keywords:
+                f, it = c.args
+                a = attr_of(f) or (getters.get(f.id) if isinstance(f, ast.Name) else None)
+                k += 1
+                v = f"map_item__{k}"
+                if a:
+                    elt = ast.Attribute(value=ast.Name(id=v, ctx=ast.Load()), attr=a, ctx=ast.Load())
+                elif isinstance(f, ast.Name | ast.Attribute):
+                    elt = ast.Call(func=f, args=[ast.Name(id=v, ctx=ast.Load())], keywords=[])
+                else:
+                    return c
+                g = ast.GeneratorExp(elt=elt, generators=[ast.comprehension(target=ast.Name(id=v, ctx=ast.Store()), iter=it, ifs=[], is_async=0)])
+                cnt += 1
+                return _L(g, c)
+            return c
+
+    T().visit(tree)
+    return cnt
